@@ -149,13 +149,19 @@ def run_case(spec, sol_kind, fva_kind):
     given = m.optimize() if sol_kind == "fba" else None
     if given is not None and given.status != "optimal":
         return fails, info
+    # FVA constrains the objective to `>= fraction x optimum` (max) resp. `<= fraction x optimum` (min); for a negative
+    # maximum resp. a positive minimum and fraction < 1 that is infeasible, and FVA then returns numbers that are not ranges
+    # and differ from call to call (the business of C05, see NOTES_C20.md); such models are summarised at fraction 1.0 so
+    # that the ranges are well defined
+    opt = m.slim_optimize()
+    ill = (m.objective_direction == "min" and opt > 0) or (m.objective_direction == "max" and opt < 0)
     if fva_kind is None:
         fva_arg, ranges = None, None
     elif fva_kind == "frame":
-        fva_arg = flux_variability_analysis(m, fraction_of_optimum=0.8, processes=1)
+        fva_arg = flux_variability_analysis(m, fraction_of_optimum=1.0 if ill else 0.8, processes=1)
         ranges = {rid: (float(row["minimum"]), float(row["maximum"])) for rid, row in fva_arg.iterrows()}
     else:
-        fva_arg = float(fva_kind)
+        fva_arg = 1.0 if ill else float(fva_kind)
         own = flux_variability_analysis(m, fraction_of_optimum=fva_arg, processes=1)
         ranges = {rid: (float(row["minimum"]), float(row["maximum"])) for rid, row in own.iterrows()}
     tol = m.tolerance
